@@ -69,7 +69,7 @@ impl Prop for Voicing {
         12000
     }
     fn cases(&self, tier: Tier) -> u32 {
-        tier.pick(1_500, 40_000)
+        tier.pick(8_000, 120_000)
     }
     fn decode(&self, t: &mut Tape, _: Tier) -> Case {
         let base = gen_engine_case(t, 12, 15, false, GenOpts::default());
